@@ -71,8 +71,49 @@ def iterator_named_like_a_parameter():
     return out
 
 
+def degenerate_sequences():
+    """Sequences at the edge of their family (an arithmetic progression with difference 0, initial term 0; a geometric one with
+    ratio 0) over a child with an additive AND a multiplicative resource: finite values all the same."""
+    def node(name, params=(), links=(), kids=(), res=(), rep=None):
+        return {"name": name, "type": None, "input_params": list(params), "local_variables": [], "linked_params": [list(l) for l in links],
+                "ports": [], "resources": list(res), "connections": [], "repetition": rep, "children": list(kids)}
+    out = []
+    seqs = [{"kind": "arithmetic", "initial_term": E.num(2), "difference": E.num(0)},
+            {"kind": "arithmetic", "initial_term": E.sym("N"), "difference": E.num(0)},
+            {"kind": "arithmetic", "initial_term": E.num(1), "difference": E.num(1)},
+            {"kind": "constant", "multiplier": E.num(0)}]
+    for seq in seqs:
+        for count in (E.num(3), E.sym("K")):
+            c = node("c", params=["N"], res=[{"name": "P", "type": "multiplicative", "value": E.op("add", E.sym("N"), E.num(1))},
+                                            {"name": "T", "type": "additive", "value": E.sym("N")}])
+            for native in (False, True):
+                out.append({"routine": node("root", params=["N", "K"], links=[["N", [["c", "N"]]]], kids=[c], rep={"count": count, "sequence": seq}),
+                            "faulted": False, "seed": 8, "native": native})
+    return out
+
+
+def local_names_inside_function_names():
+    """Local variables whose names occur INSIDE the text of another local's definition without being mentioned by it (e in
+    ceiling, a in max, N in N_total): dependencies are between names, not between pieces of text."""
+    def node(name, params=(), links=(), kids=(), res=(), locs=()):
+        return {"name": name, "type": None, "input_params": list(params), "local_variables": [list(l) for l in locs], "linked_params": [list(l) for l in links],
+                "ports": [], "resources": list(res), "connections": [], "repetition": None, "children": list(kids)}
+    out = []
+    fams = [[["e", E.op("ceil", E.op("div", E.sym("N"), E.num(2)))], ["n", E.op("mul", E.num(2), E.sym("e"))]],
+            [["a", E.op("add", E.sym("b"), E.num(1))], ["b", E.op("max", E.sym("N"), E.num(2))]],
+            [["N_total", E.op("mul", E.num(3), E.sym("tot"))], ["tot", E.op("add", E.sym("N"), E.num(1))]],
+            [["il", E.op("add", E.sym("q"), E.num(1))], ["q", E.op("ceil", E.op("div", E.sym("N"), E.num(3)))]]]
+    for locs in fams:
+        for order in (locs, locs[::-1]):
+            leaf = node("a", params=["N"], locs=order, res=[{"name": "T", "type": "additive", "value": E.op("add", E.sym(order[0][0]), E.sym(order[1][0]))}])
+            out.append({"routine": node("root", params=["N"], links=[["N", [["a", "N"]]]], kids=[leaf]), "faulted": False, "seed": 9})
+            out.append({"routine": node("root", params=["N"], locs=order, res=[{"name": "T", "type": "additive", "value": E.op("add", E.sym(order[0][0]), E.sym(order[1][0]))}]),
+                        "faulted": False, "seed": 10})
+    return out
+
+
 def gen_cases(rng, n_valid, n_fault):
-    out = iterator_named_like_a_parameter()
+    out = iterator_named_like_a_parameter() + degenerate_sequences() + local_names_inside_function_names()
     while len(out) < n_valid:
         r = H.gen_hierarchy(rng, max_depth=rng.randint(1, 3), p_rep=0.35, p_through=0.2)
         if H.count_nodes(r) <= 10:
@@ -89,7 +130,7 @@ def gen_cases(rng, n_valid, n_fault):
                     # of their own, which C17 does not cover)
                     nd["resources"].append({"name": "zr", "type": "other",
                                             "value": E.fun("round", E.op("div", E.sym(p), E.num(3)), E.sym(q))})
-            out.append({"routine": r, "faulted": False, "seed": rng.randint(0, 10**9)})
+            out.append({"routine": r, "faulted": False, "seed": rng.randint(0, 10**9), "native": rng.random() < 0.5})
     k = 0
     tries = 0
     while k < n_fault:
